@@ -105,6 +105,9 @@ class one3d(PseudoNetCDFFile):
 
         lays = where(time_date != time_date[newaxis, 0])[0][0]
 
+        if self.__records % lays != 0:
+            raise ValueError('Incomplete time step: %d records of %d layers'
+                             % (self.__records, lays))
         new_hour = slice(0, None, lays)
 
         dates = time_date[:, 1].view('>i')
@@ -112,7 +115,7 @@ class one3d(PseudoNetCDFFile):
 
         self.__tflag = array(
             [dates[new_hour], times[new_hour]], dtype='>f').swapaxes(0, 1)
-        time_steps = self.__records / lays
+        time_steps = self.__records // lays
 
         self.createDimension('VAR', 1)
         self.createDimension('TSTEP', time_steps)
